@@ -228,10 +228,18 @@ func NewMatchField[Int constraints.Integer | *big.Int | ~[]byte, Mask constraint
 		return nil, err
 	}
 	value := conv(data)
+	if value.Sign() < 0 {
+		return nil, fmt.Errorf("invalid data: negative value")
+	}
 	length := field.Length
 	if len(mask) > 0 {
 		var maskInt *big.Int
 		length /= 2
+		for i, m := range mask {
+			if i < 2 && (m < 0 || uint64(m) > uint64(length)*8) {
+				return nil, fmt.Errorf("invalid mask: %d is outside the %d-bit field", m, uint(length)*8)
+			}
+		}
 		if len(mask) != 3 || mask[2] == 1 {
 			value = new(big.Int).Lsh(value, uint(mask[0]))
 		}
@@ -244,7 +252,13 @@ func NewMatchField[Int constraints.Integer | *big.Int | ~[]byte, Mask constraint
 		if value.Cmp(maskValue) != 0 {
 			return nil, fmt.Errorf("invalid mask and data")
 		}
+		if maskInt.BitLen() > int(length)*8 {
+			return nil, fmt.Errorf("invalid mask: exceeds the %d-bit field", uint(length)*8)
+		}
 		field.Mask = big2byte(maskInt, length)
+	}
+	if value.BitLen() > int(length)*8 {
+		return nil, fmt.Errorf("invalid data: exceeds the %d-bit field", uint(length)*8)
 	}
 	field.Value = big2byte(value, length)
 	return field, nil
